@@ -89,6 +89,9 @@ Inductive op :=
 | OpAllocMax
 | OpDump
 | OpObj (k : N)
+| OpMoveCtor (dst src : N)        (* elfio dst( std::move( src ) ) *)
+| OpMoveAssign (dst src : N)      (* dst = std::move( src ) *)
+| OpDestroy (k : N)               (* delete the object *)
 | OpQueryAll              (* the C01 readers on every section/segment, boundary indices *)
 | OpQueryAll18.           (* the C18 readers likewise *)
 
@@ -695,6 +698,7 @@ Definition step1 (w : world) (o : op) : res (world * list obs) :=
       | _ => Fault NullDeref
       end
   | OpQueryAll | OpQueryAll18 => Ok (w, [])      (* expanded by [step] below *)
+  | OpMoveCtor _ _ | OpMoveAssign _ _ | OpDestroy _ => Ok (w, [])   (* handled by [step_world] *)
   end.
 
 (* composite operations keep the observations made before a fault *)
@@ -815,7 +819,52 @@ Fixpoint query_loop {A} (q : world -> N -> list obs -> pres) (w : world) (i : N)
   | _ :: t => pthen (q w i acc) (fun w1 o => query_loop q w1 (i + 1) t o)
   end.
 
+(* ---- object lifetime (C19).  Objects other than the current one live in
+   [w_others]; a moved-from object keeps its convertor setting and loses
+   header, sections, segments, translator and compression object; the moved-to
+   object owns everything the source had, including the stream of a lazy load. *)
+Definition obj_get (w : world) (k : N) : option (elfio * list (N * acc) * list N) :=
+  if k =? w_cur w then Some (w_el w, w_accs w, w_allocs w)
+  else match find (fun p => fst p =? k) (w_others w) with Some (_, v) => Some v | None => None end.
+
+Definition obj_put (w : world) (k : N) (v : elfio * list (N * acc) * list N) : world :=
+  if k =? w_cur w then mkWorld1 (fst (fst v)) (snd (fst v)) (snd v) (w_cur w) (w_others w)
+  else mkWorld1 (w_el w) (w_accs w) (w_allocs w) (w_cur w) ((k, v) :: filter (fun p => negb (fst p =? k)) (w_others w)).
+
+Definition obj_del (w : world) (k : N) : world :=
+  mkWorld1 (w_el w) (w_accs w) (w_allocs w) (w_cur w) (filter (fun p => negb (fst p =? k)) (w_others w)).
+
+Definition moved_from (src : elfio) (reset_pos : bool) : elfio :=
+  mkElfio None [] [] [] (if reset_pos then 0 else el_pos src) false None.
+
+Definition step_world (w : world) (o : op) : option (res (world * list obs)) :=
+  match o with
+  | OpMoveCtor dst src =>
+      Some (match obj_get w src with
+            | None => Fault NullDeref
+            | Some (e, a, al) =>
+                let w1 := obj_put w src (moved_from e false, [], []) in
+                Ok (obj_put w1 dst (e, [], al), [])
+            end)
+  | OpMoveAssign dst src =>
+      Some (if dst =? src then Ok (w, [])
+            else match obj_get w src, obj_get w dst with
+                 | Some (e, a, al), Some _ =>
+                     let w1 := obj_put w src (moved_from e true, [], []) in
+                     Ok (obj_put w1 dst (e, [], al), [])
+                 | _, _ => Fault NullDeref
+                 end)
+  | OpDestroy k =>
+      Some (if k =? w_cur w then Fault UseAfterFree     (* scripts switch away before destroying *)
+            else Ok (obj_del w k, []))
+  | _ => None
+  end.
+
 Definition step (w : world) (o : op) : pres :=
+  match step_world w o with
+  | Some (Ok (w1, out)) => (w1, out, None)
+  | Some (Fault f) => (w, [], Some f)
+  | None =>
   match o with
   | OpQueryAll =>
       let el := w_el w in
@@ -828,6 +877,7 @@ Definition step (w : world) (o : op) : pres :=
          | Ok (w1, out) => (w1, out, None)
          | Fault f => (w, [], Some f)
          end
+  end
   end.
 
 Fixpoint run_ops (w : world) (ops : list op) : list obs :=
